@@ -11,7 +11,7 @@ from __future__ import annotations
 import ast
 
 from mlmverif import cfg as cfgm
-from mlmverif.core import (AnalysisError, Ctx, FuncInfo, Repo, is_self_attr,
+from mlmverif.core import (AnalysisError, Ctx, FuncInfo, Repo, is_self_attr, parent_map,
                            kwarg, unparse, walk_no_nested)
 from mlmverif.props import c08
 
@@ -41,7 +41,7 @@ TR = 'chainables.transform'
 
 
 def run(ctx: Ctx):
-  for r in (r1, r2, r3, r4, r5, r6, r9, r11, r12):
+  for r in (r1, r2, r3, r4, r5, r6, r9, r11, r12, r13):
     ctx.guard(r)
   from mlmverif.props import c09
   ctx.include('R-C12-10', 'error skipping configured on a data source survives a'
@@ -598,6 +598,99 @@ def r4(ctx: Ctx):
   ctx.floor(rule, 3)
 
 
+_MATERIALISED_CALLS = {'list', 'tuple', 'sorted', 'set', 'frozenset', 'dict', 'np.asarray', 'np.array',
+                       'collections.deque', 'copy.copy', 'copy.deepcopy'}
+_BULK = {'extend', 'extendleft', 'update'}
+
+
+def _materialised(e: ast.AST, fn: ast.AST, depth: int = 0) -> bool:
+  """Is the value of `e` certainly a finished collection (cannot raise while being read)?"""
+  if isinstance(e, (ast.List, ast.Tuple, ast.Set, ast.Dict, ast.ListComp, ast.SetComp, ast.DictComp,
+                    ast.Constant)):
+    return True
+  if isinstance(e, ast.Call) and unparse(e.func) in _MATERIALISED_CALLS:
+    return True
+  if isinstance(e, ast.Name) and depth < 3:
+    defs = [x.value for x in walk_no_nested(fn) if isinstance(x, ast.Assign) and any(
+        isinstance(t, ast.Name) and t.id == e.id for t in x.targets)]
+    return bool(defs) and all(_materialised(d, fn, depth + 1) for d in defs)
+  return False
+
+
+def r13(ctx: Ctx):
+  rule = 'R-C12-13'
+  ctx.rule(rule, 'retry atomicity: inside a loop, a `try` whose handler can complete'
+           ' normally (the loop retries, typically with a smaller window) must not'
+           ' leave a half-done bulk update behind: a persistent container (attribute'
+           ' or a local defined outside the try) is extended only from a value that'
+           ' is already materialised (list(...)/tuple(...)/literal) — extending it'
+           ' straight from a slice of caller-supplied data or from an iterator lets'
+           ' the failure surface half-way through extend(): the elements read before'
+           ' it stay, the position is not advanced, and the retry reads them again'
+           ' (duplicates) — unless the handler rolls the container back')
+  repo = ctx.repo
+  n = 0
+  for fi in repo.all_functions():
+    if fi.module.name.endswith('_test'):
+      continue
+    pm = None
+    for t in walk_no_nested(fi.node):
+      if not isinstance(t, ast.Try):
+        continue
+      retrying = [h for h in t.handlers if not _always_leaves(h.body)]
+      if not retrying:
+        continue
+      if pm is None:
+        pm = parent_map(fi.node)
+      q, in_loop = pm.get(t), False
+      while q is not None and q is not fi.node:
+        if isinstance(q, (ast.While, ast.For)):
+          in_loop = True
+          break
+        q = pm.get(q)
+      if not in_loop:
+        continue
+      local_in_try = {tt.id for x in t.body for y in ast.walk(x) if isinstance(y, ast.Assign)
+                      for tt in y.targets if isinstance(tt, ast.Name)}
+      for x in (y for b in t.body for y in ast.walk(b)):
+        tgt = arg = None
+        if isinstance(x, ast.Call) and isinstance(x.func, ast.Attribute) and x.func.attr in _BULK and len(x.args) == 1:
+          tgt, arg = x.func.value, x.args[0]
+        elif isinstance(x, ast.AugAssign) and isinstance(x.op, ast.Add) and isinstance(
+            x.value, (ast.Subscript, ast.Call, ast.GeneratorExp)) and not isinstance(x.target, ast.Subscript):
+          # numeric += is not a bulk update: only sequences built from slices/calls
+          continue
+        if tgt is None:
+          continue
+        persistent = is_self_attr(tgt) or (isinstance(tgt, ast.Name) and tgt.id not in local_in_try)
+        if not persistent:
+          continue
+        n += 1
+        rolled = any(isinstance(c, ast.Call) and isinstance(c.func, ast.Attribute) and c.func.attr == 'clear'
+                     and unparse(c.func.value) == unparse(tgt) for h in retrying for c in ast.walk(h))
+        if _materialised(arg, fi.node) or rolled:
+          ctx.ok(rule, fi, f'{unparse(tgt)}.{x.func.attr}(<materialised>)', x)
+        else:
+          ctx.fail(rule, fi, f'{fi.qualname}: bulk update of {unparse(tgt)} inside a retried try reads a materialised value',
+                   f'`{unparse(x)[:70]}` extends {unparse(tgt)} directly from `{unparse(arg)[:40]}`, which'
+                   ' may be lazy (a slice of a caller-supplied random-access source can be an iterator,'
+                   ' as MergedSequences slices are): when reading fails half-way the elements already'
+                   ' appended stay, the handler retries from the same position and they are delivered'
+                   ' again', node=x)
+  ctx.floor(rule, 1, n)
+
+
+def _always_leaves(body) -> bool:
+  if not body:
+    return False
+  last = body[-1]
+  if isinstance(last, (ast.Raise, ast.Return)):
+    return True
+  if isinstance(last, ast.If) and last.orelse:
+    return _always_leaves(last.body) and _always_leaves(last.orelse)
+  return False
+
+
 def r5(ctx: Ctx):
   rule = 'R-C12-5'
   ctx.rule(rule, 'causes: every `raise X(...)` lexically inside an `except ...'
@@ -653,6 +746,15 @@ from mlmverif.selfcheck import B, OK  # noqa: E402
 _F = 'chainables/tree_fns.py'
 _U = 'utils/iter_utils.py'
 VARIANTS = [
+    B('revert-read-batch-before-caching', 'utils/iter_utils.py',
+      '          batch = list(self.data[self.i : self.i + batch_size])\n          self._cache.extend(batch)',
+      '          self._cache.extend(self.data[self.i : self.i + batch_size])', 'R-C12-13'),
+    B('cache-extended-from-iterator', 'utils/iter_utils.py',
+      '          batch = list(self.data[self.i : self.i + batch_size])\n          self._cache.extend(batch)',
+      '          batch = iter(self.data[self.i : self.i + batch_size])\n          self._cache.extend(batch)', 'R-C12-13'),
+    OK('read-batch-as-tuple-inline', 'utils/iter_utils.py',
+       '          batch = list(self.data[self.i : self.i + batch_size])\n          self._cache.extend(batch)',
+       '          self._cache.extend(tuple(self.data[self.i : self.i + batch_size]))'),
     B('revert-close-stage-iterators', 'chainables/transform.py',
       '      try:\n        yield from result\n      finally:\n        # Closes the upstream generators (e.g., a sink) when one of the\n        # functions fails or the iteration is abandoned.\n        for iterator in iterators:\n          if hasattr(iterator, \'close\'):\n            iterator.close()',
       '      yield from result', 'R-C12-12'),
